@@ -1,0 +1,42 @@
+//go:build verif
+
+package kvs
+
+// Contracts for the key-value store (property C18), checked by /verif/govc.
+// Comment-only. Key k is disk block k; jblk[k][i] is byte i of that block as
+// seen by the running journal operation (/verif/contracts/journal_data.spec).
+
+//@ specfunc kvsInv(kvs *KVS) = kvs != nil && kvs.log != nil && kvs.sz <= dsksize && curop == 0
+//@ specfunc keyOK(kvs *KVS, k uint64) = k >= 513 && k < kvs.sz
+//@ specfunc lastOf(pairs []KVPair, i uint64) = forall j uint64 :: i < j && j < len(pairs) ==> pairs[j].Key != pairs[i].Key
+
+// MultiPut: one journal operation overwrites every pair, then commits with
+// wait exactly once; the result is that commit's result. In the committed
+// view every key holds the value of the last pair naming it and no other
+// block changed (M1); a failed commit installs nothing (journal contract).
+//@ spec (*KVS).MultiPut
+//@   props C18 C11
+//@   requires kvsInv(kvs)
+//@   requires [M0-keys] forall i uint64 :: i < len(pairs) ==> keyOK(kvs, pairs[i].Key) @C18 @C11
+//@   requires [M0-vals] forall i uint64 :: i < len(pairs) ==> len(pairs[i].Val) == 4096 @C18 @C11
+//@   allocates jrnl.Op
+//@   modifies jblk, jcommits, lastst
+//@   ensures [M1-all] forall i uint64, b uint64 :: i < len(pairs) && lastOf(pairs, i) && b < 4096 ==> jblk[pairs[i].Key][b] == pairs[i].Val[b] @C18
+//@   ensures [M1-frame] forall k uint64, b uint64 :: (forall i uint64 :: i < len(pairs) ==> pairs[i].Key != k) ==> jblk[k][b] == old(jblk)[k][b] @C18
+//@   ensures [M2-durable] jcommits == old(jcommits) + 1 && (result <==> lastst == 1) && (!result ==> lastst == 4) @C18
+//@   loop 0 invariant uint64(rangeindex+1) <= len(pairs) && jcommits == old(jcommits) && lastst == old(lastst)
+//@   loop 0 invariant [done] forall i uint64, b uint64 :: i < uint64(rangeindex+1) && (forall j uint64 :: i < j && j < uint64(rangeindex+1) ==> pairs[j].Key != pairs[i].Key) && b < 4096 ==> jblk[pairs[i].Key][b] == pairs[i].Val[b]
+//@   loop 0 invariant [frame] forall k uint64, b uint64 :: (forall i uint64 :: i < uint64(rangeindex+1) ==> pairs[i].Key != k) ==> jblk[k][b] == old(jblk)[k][b]
+
+// Get: the value of the key in the current committed view, copied out; the
+// operation is committed with wait, the flag is that commit's result.
+//@ spec (*KVS).Get
+//@   props C18 C11
+//@   requires kvsInv(kvs)
+//@   requires [M0-keys] keyOK(kvs, key) @C18 @C11
+//@   allocates jrnl.Op, buf.Buf, []uint8, kvs.KVPair
+//@   modifies jcommits, lastst
+//@   ensures [G1-value] result0 != nil && result0.Key == key && len(result0.Val) == 4096 && (forall b uint64 :: b < 4096 ==> result0.Val[b] == jblk[key][b]) @C18
+//@   ensures [G1-copy] fresh(result0.Val) @C18
+//@   ensures [G2-readonly] jblk == old(jblk) @C18
+//@   ensures [M2-durable] jcommits == old(jcommits) + 1 && (result1 <==> lastst == 1) @C18
